@@ -12,6 +12,7 @@ import re
 from . import common, bvals, bval_spec, trees, javaexpr
 from .common import AnalysisBroken, enum_name, string_value, const_value
 from .c04_builtins import canon, load_frozen
+from . import c16_mangle
 from .trees import show, has_opaque
 
 EXPLANATION = (
@@ -26,6 +27,7 @@ EXPLANATION = (
     "J5: a foamj.* method named by a row whose body is a single `return e;` is parsed (mini Java expression parser) and, "
     "with java.math.BigInteger methods mapped to the bigint primitives they implement (add -> bintPlus, compareTo(..) < 0 -> "
     "bintLT, ...), compared with the reference tree of the builtin. "
+    "J6: the Java identifier mangling table gjSpecCharIdTable is injective and uniquely decodable (same rule as C16-M1). "
     "Not decided: behaviour of generated classes; builtins beyond the table's end are 'not implemented in Java'.")
 
 JAVA_CAST_CLASS = {"int": "i64", "char": "char", "byte": "u8", "short": "i16", "float": "f32", "double": "f64", "long": "i64"}
@@ -385,6 +387,11 @@ def run(tier, only=None):
                           "confirmed): programs using it now reach the default 'not handled' branch" % t)
     for t in sorted(jtags - frozen):
         rep.note("Java generator handles %s, which is not in the frozen list yet" % t)
+    # --- J6 Java identifier mangling table ---------------------------------------
+    f_gj2 = common.extract("java/genjava.c")
+    jrows = c16_mangle.mangle_table_rows(f_gj2, "gjSpecCharIdTable")
+    rep.floor("rows of gjSpecCharIdTable", len(jrows), 25)
+    c16_mangle.check_mangle_table(rep, "J6", jrows, "genjava.c", "gjSpecCharIdTable")
     rep.assumptions += ["Java's int carries FOAM SInt by design: word-size dependent limits are compared by kind, not value",
                         "java.lang/java.math methods mean what their javadoc says (table JAVA_METHOD_MEANS)"]
     return rep
